@@ -504,6 +504,14 @@ func ruleJSN4(c *Ctx) {
 		{"parseRule", "missing when", nilField("When")},
 		{"parseRule", "missing then", nilField("Then")},
 		{"buildExpressionEx", "object with more than one key", lenCmp(token.GTR, 1)},
+		{"buildExpressionEx", "nesting beyond the depth bound", func(iff *ssa.If, fn *ssa.Function) (bool, int) {
+			bo, ok := iff.Cond.(*ssa.BinOp)
+			if !ok || (bo.Op != token.GTR && bo.Op != token.GEQ) || len(fn.Params) < 2 || bo.X != ssa.Value(fn.Params[1]) {
+				return false, 0
+			}
+			_, isK := constInt(bo.Y)
+			return isK, 0
+		}},
 		{"buildCompoundOperator", "and/or with fewer than 2 operands", lenCmp(token.LSS, 2)},
 		{"joinOperator", "operator without operands", lenCmp(token.EQL, 0)},
 		{"joinSet", "set with other than 2 operands", lenCmp(token.NEQ, 2)},
